@@ -301,10 +301,65 @@ def parse_arr(res):
     return m.group(1), (m.group(2).split(",") if m.group(2) else [])
 
 
+def _tokval(tok):
+    import struct
+    if tok == "nan":
+        return float("nan")
+    if tok in ("1", "0") or tok.lstrip("-").isdigit():
+        return float(int(tok))
+    if tok.startswith("f"):
+        h = tok[1:]
+        return struct.unpack(">f", bytes.fromhex(h))[0] if len(h) == 8 else struct.unpack(">d", bytes.fromhex(h))[0]
+    return None
+
+
+def res_type_hint(res, tbl):
+    """'f32' when the table's float tokens are 8 hex digits wide"""
+    for kv in tbl.split(";"):
+        v = kv.partition("=")[2]
+        if v.startswith("f") and len(v) == 9:
+            return "f32"
+    return "f64"
+
+
+def ref_agree(tbl, ref, single):
+    """the library's scalar results (tbl) against independent reference values (ref; '?' = no reference): NaN with
+    NaN, infinities exactly, finite values within a relative bound that does not pin the algorithm"""
+    import math
+    t = dict(kv.split("=") for kv in tbl.rstrip(")").split(";") if kv)
+    r = dict(kv.split("=") for kv in ref.split(";") if kv)
+    tol = 2e-6 if single else 1e-9
+    big = 3e38 if single else 1.7e308
+    for k, want in r.items():
+        want, _, sc = want.partition("~")
+        if want == "?" or k not in t or t[k] in ("E", "?"):
+            continue
+        w, g = _tokval(want), _tokval(t[k])
+        sc = _tokval(sc) if sc else None
+        if g is None or w is None:
+            return False
+        if math.isnan(w):
+            if not math.isnan(g):
+                return False
+        elif math.isinf(w) or abs(w) > big:
+            if not (math.isinf(g) and (g > 0) == (w > 0)):
+                return False
+        elif math.isnan(g) or math.isinf(g):
+            return False
+        elif abs(g - w) > tol * max(abs(w), sc if (sc is not None and sc == sc and sc != float("inf")) else 0.0, 1e-300) \
+                and abs(g - w) > (1e-37 if single else 1e-300):
+            return False
+    return True
+
+
 def table_agree(impl, model, arity):
     """impl = `arr(shape:v..)|tbl(k=v;..)` (or err/panic); model = parr/arr of labels.  The expected element at
     each position is the table entry of the label (pair) the model places there."""
     res, _, tbl = impl.partition("|tbl(")
+    single = ")|ref32(" in tbl
+    tbl, _, ref = tbl.partition(")|ref32(" if single else ")|ref(")
+    if ref and not ref_agree(tbl, ref.rstrip(")"), single):
+        return False
     if not res.startswith("arr("):
         return canon(res) == canon(model)
     ia, ma = parse_arr(res), parse_arr(model)
